@@ -1,7 +1,8 @@
 (* C10 — whitespace and letter case never matter; formatting round-trips. *)
 From Schwifty Require Import Lib.Base Lib.Lit Model.Clean Model.Data Model.Iban Model.Bic.
 From Schwifty Require Import Spec.Iso13616 Spec.Iso9362 Spec.Whitespace.
-From Schwifty Require Import Proofs.CleanFacts Proofs.IbanFacts Proofs.BicFacts Proofs.FormatFacts Proofs.GenObligations.
+From Schwifty Require Import Proofs.CleanFacts Proofs.IbanFacts Proofs.BicFacts Proofs.FormatFacts Proofs.GenObligations Proofs.VariantFacts.
+From Schwifty Require Import Model.Bban Model.Generate Gen.ChecksumCfg.
 From Schwifty Require Import Gen.Env Gen.IbanData Gen.IbanCfg Gen.BicCfg Gen.Accessors.
 From Coq Require Import String.
 
@@ -77,7 +78,23 @@ Proof.
   split; assumption.
 Qed.
 
+(* the building entry points read their component arguments through clean() as well: white space and letter case in the
+   arguments of IBAN.generate do not matter.  The side condition is what the code really does: whether a branch code was
+   "given" beside a combined bank code is decided on the raw argument, so a blank-only branch code counts as given. *)
+Theorem C10_generate_arguments : forall national find_algo cc bank account branch bank' account' branch',
+  clean the_env bank = clean the_env bank' -> clean the_env account = clean the_env account' ->
+  clean the_env branch = clean the_env branch' -> nonempty_text branch = nonempty_text branch' ->
+  iban_generate the_env the_iban_cfg the_table national (ic_components the_iban_cfg) find_algo cc bank account branch
+  = iban_generate the_env the_iban_cfg the_table national (ic_components the_iban_cfg) find_algo cc bank' account' branch'.
+Proof.
+  intros national find_algo cc bank account branch bank' account' branch' Hb Ha Hr Hn. unfold iban_generate.
+  rewrite (from_components_reading the_env (ic_components the_iban_cfg) the_table find_algo cc _ _
+             (generate_reading the_env bank account branch bank' account' branch' Hb Ha Hr Hn)).
+  reflexivity.
+Qed.
+
 Print Assumptions C10_whitespace.
+Print Assumptions C10_generate_arguments.
 Print Assumptions C10_case.
 Print Assumptions C10_compact.
 Print Assumptions C10_iban_formatted.
